@@ -69,6 +69,15 @@ fn main() {
         sink.merge(struct_sweep(&run, &[&SIGNED_OLD], &wfs(style, || cat::signatures(false, false)), run.tier.pick(0, 1), &sfx, 48, &no_extra));
     }
 
+    // Diffie-Hellman values in the relations a validity check would look for (Ys = 0 / 1 / p-1 / p / p+1, g = p-1, padded forms),
+    // alone and followed by a signature through the content+signature parsers
+    {
+        let rel = cat::dh_relations();
+        sink.merge(struct_sweep(&run, &[&DH_PARAMS], &rel, 0, &sfx, 16, &no_extra));
+        let sig = &sig_new[sig_new.len() / 2];
+        let with_sig: Vec<W> = rel.iter().map(|c| concat(c, sig)).collect();
+        sink.merge(struct_sweep(&run, &[&P_DH_NEW], &with_sig, 0, &sfx, 16, &no_extra));
+    }
     // the same encodings under foreign outer headers (DER OCTET STRING / SEQUENCE / BIT STRING, length prefixes, ...)
     sink.merge(struct_sweep(&run, &[&DH_PARAMS], &wrapped(&cat::dh_params(false), 2), 0, &sfx, 16, &no_extra));
     sink.merge(struct_sweep(&run, &[&ECDH_PARAMS, &EC_PARAMETERS], &wrapped(&ecdh, 1), 0, &sfx, 16, &no_extra));
